@@ -86,7 +86,14 @@ pub fn world_for(prop: &str, rs: u64, world_arg: Option<&str>) -> &'static str {
     }
 }
 
+/// Interpreter tiers (Miri) run the same seeds with shorter histories and a lighter audit.
+pub static LIGHT: std::sync::atomic::AtomicBool = std::sync::atomic::AtomicBool::new(false);
+pub static MAXLEN: AtomicU64 = AtomicU64::new(u64::MAX);
+
 pub fn opts_for(prop: &str) -> RunOpts {
+    if LIGHT.load(Ordering::Relaxed) {
+        return RunOpts { trace: false, heavy_audit: false, scan_every: 16 };
+    }
     RunOpts {
         trace: false,
         heavy_audit: matches!(prop, "C01" | "C02" | "C09" | "C13"),
@@ -136,8 +143,20 @@ pub struct Failure {
 pub fn unit_specs(prop: &str, mode: &str, seed: u64, unit: u64, world_arg: Option<&str>) -> Vec<RunSpec> {
     let rs = run_seed(seed, prop, unit);
     let cfg = build_cfg();
+    let mut v = unit_specs_inner(prop, mode, seed, unit, world_arg, rs, cfg);
+    let ml = MAXLEN.load(Ordering::Relaxed);
+    if ml != u64::MAX {
+        for s in v.iter_mut() {
+            s.ops.truncate(ml as usize);
+        }
+    }
+    v
+}
+
+fn unit_specs_inner(prop: &str, mode: &str, seed: u64, unit: u64, world_arg: Option<&str>, rs: u64, cfg: crate::engine::BuildCfg) -> Vec<RunSpec> {
     match mode {
         "c07" => vec![c07_enum_spec(rs, unit)],
+        "c06" => vec![c06_enum_spec(seed, unit)],
         "c12" => vec![c12_enum_spec(rs, unit)],
         "c11" => vec![c11_enum_spec(rs, unit)],
         _ => {
@@ -146,6 +165,31 @@ pub fn unit_specs(prop: &str, mode: &str, seed: u64, unit: u64, world_arg: Optio
             vec![gen_spec(prop, rs, &sh, cfg)]
         }
     }
+}
+
+pub const C06_COMBOS: u64 = 7 * 2 * 13;
+
+/// Break positions enumerated: for a sampled state (a seeded history prefix shared by the 182
+/// units of one family) each of the 7 query sites x {ecs_iter!, ecs_iter_borrow!} is run with
+/// Break returned at visit k, k = 0..=11, and once without Break.
+pub fn c06_enum_spec(seed: u64, unit: u64) -> RunSpec {
+    let family = unit / C06_COMBOS;
+    let mut c = unit % C06_COMBOS;
+    let site = (c % 7) as u8;
+    c /= 7;
+    let mac = if c % 2 == 0 { QMacro::Iter } else { QMacro::IterBorrow };
+    c /= 2;
+    let brk = c; // 12 = never
+    let rs = run_seed(seed, "C06-family", family);
+    let sh = shape_any("WA");
+    let mut s = gen_spec("C12", rs, &sh, build_cfg());
+    s.ops.retain(|o| matches!(o, Op::Create { .. } | Op::CreateWithin { .. } | Op::Destroy { .. } | Op::Fill { .. } | Op::Cycle { .. }));
+    s.ops.truncate(24);
+    let plan: Vec<VisitAct> = (0..=brk.min(11))
+        .map(|k| VisitAct { step: if k == brk { Step::Break } else { Step::Continue }, w: None, inner: Inner::Nothing, panic: false })
+        .collect();
+    s.ops.push(Op::Query { site, mac, key: None, plan });
+    s
 }
 
 pub const C07_COMBOS: u64 = 1 + 4 + 16 + 64 + 256 + 1024;
@@ -418,6 +462,12 @@ pub fn cmd_batch(m: &BTreeMap<String, String>) -> i32 {
     let start: u64 = m.get("start").and_then(|s| s.parse().ok()).unwrap_or(0);
     let threads: usize = m.get("threads").and_then(|s| s.parse().ok()).unwrap_or(16);
     let world_arg = m.get("world").cloned();
+    if m.contains_key("light") {
+        LIGHT.store(true, Ordering::Relaxed);
+    }
+    if let Some(ml) = m.get("maxlen").and_then(|s| s.parse::<u64>().ok()) {
+        MAXLEN.store(ml, Ordering::Relaxed);
+    }
     let t0 = std::time::Instant::now();
     let next = AtomicU64::new(start);
     let min_fail = AtomicU64::new(u64::MAX);
